@@ -8,6 +8,7 @@ the reference evaluation of the unsimplified tree.  Depth 3 and 4 are sampled.  
 equality (==) of constructed formulas must imply equal truth tables.
 """
 import itertools
+import os
 import random
 
 from vlib import smt
@@ -332,7 +333,7 @@ def install_constructor_hooks():
         h = make(orig, conn, fname)
         for mod in list(sys.modules.values()):
             d = getattr(mod, "__dict__", None)
-            if not d or not str(getattr(mod, "__file__", "")).startswith("/repo"):
+            if not d or not str(getattr(mod, "__file__", "")).startswith(os.environ.get("GASOL_VERIF_REPO", "/repo")):
                 continue
             for k, v in list(d.items()):
                 if v is orig:
